@@ -71,7 +71,7 @@ RETCODE adfGetFileBlocks ( struct AdfVolume * const        vol,
  
     n = m = 0;	
     /* in file header block */
-    for(i=0; i<entry->highSeq; i++)
+    for ( i = 0 ; i < entry->highSeq && i < MAX_DATABLK && n < fileBlocks->nbData ; i++ )
         fileBlocks->data[n++] = entry->dataBlocks[MAX_DATABLK-1-i];
 
     /* in file extension blocks */
@@ -85,8 +85,12 @@ RETCODE adfGetFileBlocks ( struct AdfVolume * const        vol,
             fileBlocks->data[n++] = extBlock.dataBlocks[MAX_DATABLK-1-i];
         nSect = extBlock.extension;
     }
-    if ( (fileBlocks->nbExtens+fileBlocks->nbData) != (n+m) )
+    if ( (fileBlocks->nbExtens+fileBlocks->nbData) != (n+m) ) {
         (*adfEnv.wFct)("adfGetFileBlocks : less blocks than expected");
+        /* only the numbers found are valid */
+        fileBlocks->nbData = n;
+        fileBlocks->nbExtens = m;
+    }
 
     return RC_OK;
 }
